@@ -501,3 +501,29 @@ Proof.
   - split; [apply init_Bd|]. intros ? ? ? ? Hx. cbn [init_st out] in Hx. destruct Hx.
   - apply init_V.
 Qed.
+
+(* ------------------------------------------------------------------ C01 / C02 under a target *)
+
+(* A target run is a repetition run of some number of iterations, so everything proved for
+   repetition runs holds for it: in particular the ids written per visible table are dense. *)
+Theorem ids_dense_target r T N fuel s j :
+  Stopping.proper_table T -> hidden T = false ->
+  run_target r (Some (Stopping.mkCrit T N)) fuel None = Ok (s, j) ->
+  forall U, hidden U = false ->
+    Permutation (written U (out s)) (Zseq 1 (Z.to_nat (last_id s U))).
+Proof.
+  intros HT Hv H U HU.
+  destruct (target_run_fresh r T N fuel s j HT Hv H) as (_ & _ & Hrun & _).
+  exact (ids_dense_fresh r j s Hrun U HU).
+Qed.
+
+Theorem no_dangling_target r T N fuel s j :
+  Stopping.proper_table T -> hidden T = false ->
+  run_target r (Some (Stopping.mkCrit T N)) fuel None = Ok (s, j) ->
+  forall row n U i, In row (out s) -> In (n, ORef U i) (snd row) -> hidden U = false ->
+    exists row', In row' (out s) /\ fst row' = U /\ orow_id row' = [i].
+Proof.
+  intros HT Hv H.
+  destruct (target_run_fresh r T N fuel s j HT Hv H) as (_ & _ & Hrun & _).
+  exact (no_dangling_fresh r j s Hrun).
+Qed.
